@@ -1,5 +1,8 @@
 import CgtModel.Report
 import CgtModel.Props.C07
+import CgtModel.Props.C12
+import CgtModel.Lemmas.SpecPerm
+import CgtModel.Lemmas.YearSlice
 /-! # C16 — output is deterministic and canonically ordered
 
 The model has no hash maps: wherever the Rust iterates one (pools, matches per year, disposals per
@@ -11,6 +14,11 @@ a function of the input alone. Proved for the model:
 * `C16_sort_is_canonical` — sorting any permutation of the same disposal list with `dispLe` gives a
   list with the same elements in `dispLe` order (so the order in which a hash map yields them cannot
   show, up to ties, and ties do not occur: (date, ticker) keys are distinct).
+* `C16_order_independent`, `C16_report_order_free` — **ties do not occur, proved**: results of pairwise
+  different securities whose legs carry real calendar dates give, in any order of arrival (the order a
+  hash map yields them in), the same disposal list element for element and the same holdings list; and
+  every accepted ledger with real dates produces such results (`run_tickers`: the securities are those of
+  the ledger, each once; every leg is dated by a line's date).
 Partial: "all process executions" is observed, not proved — the check runs each case several times
 in-process (every `HashMap::new()` draws a fresh seed) and as separate `cgt-tool` processes for
 `report` (plain, json) and `parse`, and compares bytes; the converter's timestamp line is masked.
@@ -64,5 +72,245 @@ theorem C16_holdings_sorted (rs : List TickerResult) :
 theorem C16_years_ascending (ex : List (Int × Rat)) (l : List Tx) (ds : List Disposal)
     (out : List YearSummary) (h : allYears ex l ds = .ok out) : C07.StrictAsc (out.map (·.year)) :=
   C07.C07_years_ascending ex l ds out h
+
+/-! ### whatever order a hash map yields the securities in -/
+
+/-- the grouped legs of one security carry pairwise different dates -/
+theorem addLeg_keys (x : Leg) : ∀ acc : List (Date × List Leg), (acc.map (·.1)).Nodup →
+    ((addLeg x acc).map (·.1)).Nodup ∧ ∀ d ∈ (addLeg x acc).map (·.1), d ∈ acc.map (·.1) ∨ d = x.sellDate := by
+  intro acc
+  induction acc with
+  | nil => intro _; simp [addLeg]
+  | cons g rest ih =>
+    obtain ⟨d, ls⟩ := g
+    intro hnd
+    simp only [List.map_cons, List.nodup_cons] at hnd
+    simp only [addLeg]
+    split
+    · simp only [List.map_cons, List.nodup_cons]
+      exact ⟨hnd, fun e he => Or.inl he⟩
+    · rename_i hne
+      obtain ⟨ih1, ih2⟩ := ih hnd.2
+      simp only [List.map_cons, List.nodup_cons, List.mem_cons]
+      refine ⟨⟨?_, ih1⟩, ?_⟩
+      · intro hm
+        rcases ih2 d hm with h | h
+        · exact hnd.1 h
+        · exact hne h
+      · intro e he
+        rcases he with rfl | he
+        · exact Or.inl (Or.inl rfl)
+        · rcases ih2 e he with h | h
+          · exact Or.inl (Or.inr h)
+          · exact Or.inr h
+
+theorem groupByDate_keys (legs : List Leg) :
+    ((groupByDate legs).map (·.1)).Nodup ∧ ∀ d ∈ (groupByDate legs).map (·.1), ∃ x ∈ legs, d = x.sellDate := by
+  unfold groupByDate
+  have : ∀ (xs : List Leg) (acc : List (Date × List Leg)), (acc.map (·.1)).Nodup →
+      ((xs.foldl (fun acc l => addLeg l acc) acc).map (·.1)).Nodup ∧
+      ∀ d ∈ (xs.foldl (fun acc l => addLeg l acc) acc).map (·.1), d ∈ acc.map (·.1) ∨ ∃ x ∈ xs, d = x.sellDate := by
+    intro xs
+    induction xs with
+    | nil => intro acc h; exact ⟨h, fun d hd => Or.inl hd⟩
+    | cons x xs ih =>
+      intro acc h
+      simp only [List.foldl_cons]
+      obtain ⟨a1, a2⟩ := addLeg_keys x acc h
+      obtain ⟨i1, i2⟩ := ih _ a1
+      refine ⟨i1, ?_⟩
+      intro d hd
+      rcases i2 d hd with h' | ⟨y, hy, e⟩
+      · rcases a2 d h' with h'' | h''
+        · exact Or.inl h''
+        · exact Or.inr ⟨x, by simp, h''⟩
+      · exact Or.inr ⟨y, by simp [hy], e⟩
+  obtain ⟨h1, h2⟩ := this legs [] (by simp)
+  refine ⟨h1, ?_⟩
+  intro d hd
+  rcases h2 d hd with h | h
+  · simp at h
+  · exact h
+
+/-- two disposals of one security's grouped legs with the same date are the same disposal -/
+theorem groupLegs_date_inj (dp : Nat) (t : String) (legs : List Leg) (a b : Disposal)
+    (ha : a ∈ groupLegs dp t legs) (hb : b ∈ groupLegs dp t legs) (h : a.date = b.date) : a = b := by
+  unfold groupLegs at ha hb
+  simp only [List.mem_map] at ha hb
+  obtain ⟨⟨d1, l1⟩, m1, rfl⟩ := ha
+  obtain ⟨⟨d2, l2⟩, m2, rfl⟩ := hb
+  have hd : d1 = d2 := h
+  subst hd
+  have hnd := (groupByDate_keys legs).1
+  have : l1 = l2 := by
+    generalize groupByDate legs = gs at m1 m2 hnd
+    induction gs with
+    | nil => cases m1
+    | cons g gs ih =>
+      simp only [List.map_cons, List.nodup_cons] at hnd
+      rcases List.mem_cons.mp m1 with e1 | m1' <;> rcases List.mem_cons.mp m2 with e2 | m2'
+      · rw [← e1] at e2; injection e2 with _ e; exact e.symm
+      · exfalso; apply hnd.1; rw [← e1]; exact List.mem_map.mpr ⟨_, m2', rfl⟩
+      · exfalso; apply hnd.1; rw [← e2]; exact List.mem_map.mpr ⟨_, m1', rfl⟩
+      · exact ih m1' m2' hnd.2
+  rw [this]
+
+theorem groupLegs_fields (dp : Nat) (t : String) (legs : List Leg) (a : Disposal) (ha : a ∈ groupLegs dp t legs) :
+    a.ticker = t ∧ ∃ x ∈ legs, a.date = x.sellDate := by
+  unfold groupLegs at ha
+  simp only [List.mem_map] at ha
+  obtain ⟨⟨d, ls⟩, m, rfl⟩ := ha
+  refine ⟨rfl, ?_⟩
+  exact (groupByDate_keys legs).2 d (List.mem_map.mpr ⟨_, m, rfl⟩)
+
+theorem nodup_map_inj {α β : Type} (f : α → β) : ∀ l : List α, (l.map f).Nodup →
+    ∀ a ∈ l, ∀ b ∈ l, f a = f b → a = b := by
+  intro l
+  induction l with
+  | nil => intro _ a ha; cases ha
+  | cons x xs ih =>
+    intro h a ha b hb e
+    simp only [List.map_cons, List.nodup_cons] at h
+    rcases List.mem_cons.mp ha with rfl | ha' <;> rcases List.mem_cons.mp hb with rfl | hb'
+    · rfl
+    · exfalso; apply h.1; rw [e]; exact List.mem_map_of_mem hb'
+    · exfalso; apply h.1; rw [← e]; exact List.mem_map_of_mem ha'
+    · exact ih h.2 a ha' b hb' e
+
+/-- **the order in which the securities' results arrive does not show**: for results with pairwise
+    different securities whose legs carry real calendar dates, any permutation of the result list (the
+    order a hash map happens to yield them in) gives the same disposal list, element for element, and the
+    same holdings list. -/
+theorem C16_order_independent (dp : Nat) (rs rs' : List TickerResult) (hp : rs.Perm rs')
+    (hnd : (rs.map (·.ticker)).Nodup) (hdates : ∀ r ∈ rs, ∀ x ∈ r.legs, x.sellDate.ok) :
+    allDisposals dp rs = allDisposals dp rs' ∧ holdingsOf rs = holdingsOf rs' := by
+  have inj : ∀ r ∈ rs, ∀ r' ∈ rs, r.ticker = r'.ticker → r = r' := by
+    intro r hr r' hr' e
+    exact nodup_map_inj (·.ticker) rs hnd r hr r' hr' e
+  constructor
+  · unfold allDisposals
+    have hperm : ((rs.map (fun r => groupLegs dp r.ticker r.legs)).flatten).Perm ((rs'.map (fun r => groupLegs dp r.ticker r.legs)).flatten) :=
+      (hp.map _).flatten
+    apply List.Perm.eq_of_pairwise (le := fun a b => dispLe a b = true)
+    · intro a b ha hb hab hba
+      rw [List.mem_mergeSort] at ha hb
+      rw [← hperm.mem_iff] at hb
+      simp only [List.mem_flatten, List.mem_map] at ha hb
+      obtain ⟨_, ⟨r, hr, rfl⟩, ha⟩ := ha
+      obtain ⟨_, ⟨r', hr', rfl⟩, hb⟩ := hb
+      obtain ⟨ta, x, hx, da⟩ := groupLegs_fields dp _ _ a ha
+      obtain ⟨tb, x', hx', db⟩ := groupLegs_fields dp _ _ b hb
+      unfold dispLe at hab hba
+      simp only [Bool.or_eq_true, decide_eq_true_eq, Bool.decide_or, Bool.decide_and, Bool.and_eq_true] at hab hba
+      have hord : a.date.ord = b.date.ord := by
+        rcases hab with h | h <;> rcases hba with h' | h' <;> omega
+      have htk : a.ticker = b.ticker := by
+        rcases hab with h | h
+        · omega
+        · rcases hba with h' | h'
+          · omega
+          · exact String.le_antisymm h.2 h'.2
+      have hrr : r = r' := inj r hr r' hr' (by rw [← ta, ← tb, htk])
+      subst hrr
+      have hdate : a.date = b.date := by
+        apply Spec.ord_inj _ _ _ _ hord
+        · rw [da]; exact hdates r hr x hx
+        · rw [db]; exact hdates r hr x' hx'
+      exact groupLegs_date_inj dp _ _ a b ha hb hdate
+    · exact List.pairwise_mergeSort (fun a b c => dispLe_trans a b c) dispLe_total _
+    · exact List.pairwise_mergeSort (fun a b c => dispLe_trans a b c) dispLe_total _
+    · exact ((List.mergeSort_perm _ _).trans hperm).trans (List.mergeSort_perm _ _).symm
+  · unfold holdingsOf
+    have hperm : (rs.filterMap (fun r => r.pool.map (fun p => (r.ticker, p)))).Perm (rs'.filterMap (fun r => r.pool.map (fun p => (r.ticker, p)))) :=
+      hp.filterMap _
+    apply List.Perm.eq_of_pairwise (le := fun (a b : String × Pool) => decide (a.1 ≤ b.1) = true)
+    · intro a b ha hb hab hba
+      rw [List.mem_mergeSort] at ha hb
+      rw [← hperm.mem_iff] at hb
+      simp only [List.mem_filterMap, Option.map_eq_some_iff] at ha hb
+      obtain ⟨r, hr, p, hp1, rfl⟩ := ha
+      obtain ⟨r', hr', p', hp2, rfl⟩ := hb
+      simp only [decide_eq_true_eq] at hab hba
+      have hrr : r = r' := inj r hr r' hr' (String.le_antisymm hab hba)
+      subst hrr
+      rw [hp1] at hp2
+      injection hp2 with e
+      rw [e]
+    · exact List.pairwise_mergeSort
+        (fun a b c h1 h2 => by simp only [decide_eq_true_eq] at *; exact String.le_trans h1 h2)
+        (fun a b => by simp only [Bool.or_eq_true, decide_eq_true_eq]; exact String.le_total a.1 b.1) _
+    · exact List.pairwise_mergeSort
+        (fun a b c h1 h2 => by simp only [decide_eq_true_eq] at *; exact String.le_trans h1 h2)
+        (fun a b => by simp only [Bool.or_eq_true, decide_eq_true_eq]; exact String.le_total a.1 b.1) _
+    · exact ((List.mergeSort_perm _ _).trans hperm).trans (List.mergeSort_perm _ _).symm
+
+
+theorem nodup_eraseDups : ∀ (n : Nat) (l : List String), l.length ≤ n → l.eraseDups.Nodup := by
+  intro n
+  induction n with
+  | zero =>
+    intro l h
+    have : l = [] := List.length_eq_zero_iff.mp (Nat.le_zero.mp h)
+    subst this; simp
+  | succ n ih =>
+    intro l h
+    cases l with
+    | nil => simp
+    | cons a as =>
+      rw [List.eraseDups_cons, List.nodup_cons]
+      constructor
+      · intro hm
+        rw [List.mem_eraseDups] at hm
+        have := (List.mem_filter.mp hm).2
+        simp at this
+      · apply ih
+        have := List.length_filter_le (fun b => !b == a) as
+        simp only [List.length_cons] at h
+        omega
+
+/-- **… for the report of any accepted ledger**: the disposal list and the holdings list of an accepted
+    ledger with real calendar dates do not depend on the order in which the per-security results are
+    collected (in the Rust, the iteration order of the pool and match hash maps). -/
+theorem C16_report_order_free (dp : Nat) (l : List Tx) (hd : Spec.DatesOk l) (rs rs' : List TickerResult)
+    (h : run bnbWindowDays l = .ok rs) (hp : rs.Perm rs') :
+    allDisposals dp rs = allDisposals dp rs' ∧ holdingsOf rs = holdingsOf rs' := by
+  apply C16_order_independent dp rs rs' hp
+  · rw [run_tickers bnbWindowDays l rs h]
+    unfold tickersOf
+    exact nodup_eraseDups _ _ (Nat.le_refl _)
+  · intro r hr x hx
+    have hrun := C02.run_result bnbWindowDays l rs h r hr
+    unfold runTicker at hrun
+    split at hrun
+    · cases hrun
+    · rename_i ds' hw
+      obtain ⟨d, hdm, e⟩ := runDays_sellDate r.ticker bnbWindowDays ds' none r.pool [] r.legs hrun x hx
+      unfold withOffsets at hw
+      split at hw
+      · cases hw
+      · simp only [Except.ok.injEq] at hw
+        subst hw
+        simp only [List.mem_map] at hdm
+        obtain ⟨d0, hd0, rfl⟩ := hdm
+        obtain ⟨b, hb, eb⟩ := C12.daysOf_date_mem r.ticker l d0 hd0
+        rw [e]
+        show d0.date.ok
+        rw [eb]
+        exact hd b hb
+
+-- non-vacuity: two securities' results in either order
+def exRs : List TickerResult :=
+  [ { ticker := "B", pool := some ⟨5, 10⟩, legs := [] },
+    { ticker := "A", pool := none, legs := [ { (default : Leg) with sellDate := ⟨2024, 2, 29⟩ } ] } ]
+example : exRs.Perm exRs.reverse ∧ (exRs.map (·.ticker)).Nodup ∧ ∀ r ∈ exRs, ∀ x ∈ r.legs, x.sellDate.ok := by
+  refine ⟨(List.reverse_perm _).symm, by decide, ?_⟩
+  intro r hr x hx
+  simp only [exRs, List.mem_cons, List.not_mem_nil, or_false] at hr
+  rcases hr with rfl | rfl
+  · cases hx
+  · simp only [List.mem_cons, List.not_mem_nil, or_false] at hx
+    subst hx
+    unfold Date.ok leapP
+    decide
 
 end Cgt.C16
